@@ -84,11 +84,42 @@ def _classes_of_annotation(repo, ann: str) -> list:
 
     names = set(re.findall(r"[A-Za-z_][A-Za-z_0-9]*", ann or ""))
     out = []
+    # a Protocol named X is implemented by the hierarchy under BaseX (Relation / BaseRelation): annotations use the protocol's name
+    names |= {"Base" + n for n in list(names)}
     for mod in repo.modules.values():
         for ci in getattr(mod, "classes", {}).values():
             if ci.name in names and ci not in out:
                 out.append(ci)
     return out
+
+
+def value_keyed_params(repo, fi) -> list[str]:
+    """Parameters whose class (or a subclass) is compared by value: two distinct objects can be the same cache key."""
+    out = []
+    for a in fi.node.args.args + fi.node.args.kwonlyargs:
+        if a.annotation is None:
+            continue
+        todo = list(_classes_of_annotation(repo, ast.unparse(a.annotation)))
+        seen = []
+        while todo:
+            ci = todo.pop()
+            if ci in seen:
+                continue
+            seen.append(ci)
+            todo.extend(repo.subclasses(ci, concrete_only=False))
+        if any(ci.is_dataclass and getattr(ci, "dc_eq", True) for ci in seen):
+            out.append(a.arg)
+    return out
+
+
+def returns_an_object(repo, fi) -> bool:
+    r = fi.node.returns
+    if r is None:
+        return True
+    txt = ast.unparse(r)
+    if txt in ("bool", "int", "str", "None", "float") or txt.startswith(("Literal[", "bool |", "int |")):
+        return False
+    return True
 
 
 def ignored_by_key(repo, fi) -> dict[str, str]:
@@ -137,6 +168,15 @@ def obligations(repo, fi, key: str, mk):
                               f"@{d}: the cache key ignores attribute(s) {bad[:8]} that the call may read ({why}); the result of a call may then depend on an earlier call with an equal key"))
             else:
                 res.append(mk(f"{key}/memoised-result-is-determined-by-the-cache-key", "memoised-result-is-determined-by-the-cache-key", "decorator", "proved", ""))
+            # identity: with value-compared keys a later caller gets the object computed for (and possibly taken out of) an earlier, merely
+            # *equal* argument -- harmless for scalars, not for relations / operations, whose identity and payloads the properties speak about
+            vk = value_keyed_params(repo, fi)
+            if vk and returns_an_object(repo, fi):
+                res.append(mk(f"{key}/memoised-result-belongs-to-this-calls-arguments", "memoised-result-belongs-to-this-calls-arguments", "decorator", "unknown",
+                              f"@{d}: parameter(s) {vk} are compared by value, so a call may be answered with the object cached for an earlier, equal but distinct argument "
+                              f"(its nodes, payloads and identity are the earlier caller's); the function returns an object ({ast.unparse(fi.node.returns) if fi.node.returns else 'unannotated'})"))
+            else:
+                res.append(mk(f"{key}/memoised-result-belongs-to-this-calls-arguments", "memoised-result-belongs-to-this-calls-arguments", "decorator", "proved", ""))
         else:
             res.append(mk(f"{key}/subset", "subset", "subset", "error", f"OutsideSubset: decorator @{d} is not modelled (the body alone is not the code that runs)"))
     return res
